@@ -838,6 +838,11 @@ def run(ctx):
     for i in range(ctx.scale(60, 2500)):
         chunks = rng.choice([[1, 2, 3], [1, 5, 17, 64], [50, 200, 1000], [3, 4000], [100000]])
         hcases.append(gen_random_cut_case(rng, "r%d" % i, rng.randint(1, 40 if i % 5 == 0 else 8), sizes, chunks))
+    # many complete frames in ONE read (a client that pipelines small frames; the kernel coalesces them): every one is delivered by that
+    # read, however many there are - nothing may be left waiting for bytes that need not come
+    for i, nfr in enumerate(ctx.scale([33, 64, 200], [2, 31, 32, 33, 34, 63, 64, 65, 100, 255, 256, 257, 1000])):
+        hcases.append(gen_random_cut_case(rng, "burst%d" % i, nfr, tiny, [10 ** 6]))
+        hcases.append(gen_random_cut_case(rng, "burstc%d" % i, nfr, tiny, [10 ** 6, 7, 300]))
     for i in range(ctx.scale(3, 40)):
         big = sizes + [65535, 65536, rng.choice([65534, 65537, 70000, rng.randrange(65000, 66001)])]
         chunks = rng.choice([[1460], [1460, 2920, 65536], [7, 30000], [100000], [65536, 5]])
